@@ -17,10 +17,10 @@ CHECKS = {
             "proptest over decoded byte strings -> (combinator tree, child scripts, adversarial poll/fire/drop schedule) run by a wake-only executor with a fresh task waker per poll; oracle L (first invocation of a pending child's current waker must wake the most recent task, between polls and from inside polls), P (at quiescence of a fair drain a pending combinator must be explained by a never-completing child) and no waker invocation may panic; all families x tuple/array/Vec/group x nesting x std/alloc/no_std",
             "property-based testing: generated wake schedules vs. lost-wake-up and quiescence-progress invariants on the observed trace"),
     "C02": ("comb", "§5 C02, §4 D",
-            "same generator with drops at every point and one injected child panic; oracle D: every child and every produced value dropped exactly once, children gone when the combinator's drop returns, nothing returned that was not produced, reads of uninitialised slots show up as drops of unknown tokens",
+            "same generator with drops at every point and one injected child panic, 16% of the cases being concurrent-stream pipelines (source, closure futures, early drop, injected panic); oracle D: every child and every produced value dropped exactly once, children gone when the combinator's drop returns, nothing returned that was not produced, reads of uninitialised slots show up as drops of unknown tokens",
             "property-based testing with fault injection (drop points, injected panics) vs. exactly-once drop accounting"),
     "C03": ("comb", "§5 C03, §4 Q",
-            "same generator biased to stale wake-ups at finished children; oracle Q: no child poll outside a poll of the top-level combinator, none after the child completed, none after the owner produced its final result",
+            "same generator biased to stale wake-ups at finished children, 16% of the cases being concurrent-stream pipelines (source never polled after None, closure futures never after Ready); oracle Q: no child poll outside a poll of the top-level combinator, none after the child completed, none after the owner produced its final result",
             "property-based testing: generated schedules vs. poll-discipline invariant on the poll log"),
     "C04": ("comb", "§5 C04", "join over tuples 0..12, arrays, Vec (<=200 thorough), a.join(b), nested; oracle: output = children's outputs position by position, resolves exactly in the poll in which the last child resolves, never earlier or later",
             "property-based testing: trace relation between child answers and join output (positional, same-poll)"),
@@ -49,6 +49,16 @@ CHECKS = {
     "C12": ("group", "§5 C12", "as C11 for StreamGroup with multi-item member scripts: every item of every member exactly once and in member order (each member answer Some(x) must be the result of that very poll), keyed items tagged with the insert key, a member that answers None is dropped and gone from the set view when the poll returns, None iff no member remains, several members ending in one poll, refill after None; std and alloc-only",
             "model-based (stateful) property testing: generated operation histories vs. reference set model and per-poll trace relation"),
 }
+
+CHECKS["C13"] = ("co", "§5 C13",
+    "scripted source (scripted stream through .co(), or Vec::into_co_stream) x optional map/enumerate/limit stack x for_each, one scripted closure future per item (any pending count, self/sibling/late wakes, never-completing), driven by the hostile wake-only executor with drops at any point; oracle on the trace: the closure is invoked exactly once per source item and with that item's value, the operation resolves only when every closure future has completed, created-and-uncompleted closure invocations never exceed the limit, an early drop leaves nothing alive, and a fair drain without never-completing futures must end resolved (no lost wake-up in send/progress/flush); std and alloc-only",
+    "property-based testing: generated source/closure-future schedules vs. exactly-once, structured-completion, concurrency-bound and quiescence-progress invariants on the observed trace")
+CHECKS["C14"] = ("co", "§5 C14",
+    "as C13 for try_for_each and collect::<Result<Vec<_>,_>> with every Ok/Err assignment, so that the first error surfaces in send's back-pressure loop, in progress, or only in the final flush; oracle: Ok only if every expected item was processed and every closure future answered Ok (collect: and the Ok values are exactly theirs), Err carries an error token some closure future actually returned, once an error has come out of a closure future no further source item is taken, no closure is invoked and no in-flight future completes, and after the drop nothing is alive; std and alloc-only",
+    "property-based testing: generated Ok/Err assignments and schedules vs. error-fidelity and cancellation invariants on the observed trace")
+CHECKS["C15"] = ("co", "§5 C15",
+    "every adapter stack of depth <= 3 over {map, enumerate, take(0..=len+2), limit} (85 stack shapes) x {collect::<Vec<_>>, for_each, try_for_each} x {stream.co(), Vec::into_co_stream}, source length 0..=12, completion order decoupled from source order by the closure-future scripts; oracle: every map closure invoked exactly once per processed item and with the value the stack in front of it produces (enumerate = zero-based source position), processed items are exactly the first min(n, len) for the smallest take in the stack (none for n = 0), collect returns exactly the multiset of per-item outputs; 30 hand-written take(0) regression cases run first; std and alloc-only",
+    "property-based testing: generated adapter stacks and completion orders vs. reference semantics (multiset, source index, exact prefix) read off the closure-invocation log")
 
 NA = {
     "C11": "check under construction in this session (group model driver)",
